@@ -31,6 +31,7 @@ CLASSES = {   # python class -> (constructors it matches, Lean predicate for an 
 
 class CondDomain:
     exn_ty = EXN
+    self_kind = "cond"
 
     def __init__(self, klass, fns=()):
         self.klass = klass       # "pc" | "ic"
@@ -252,17 +253,38 @@ open Asynkit.Cond
 """
 
 
-def sync_def(name, doc, fn, params, lean_params):
-    ex = Executor(SyncDomain("pc"), fn, params, ident=name)
+PRIMITIVE_METHODS = {"_notify", "notify", "wait", "locked", "release", "acquire", "_get_loop"}
+
+
+def class_helpers(tree, cls):
+    """private synchronous methods of the class that are not primitives of the kernel interface: inlined when
+    the translated code calls them as `self.name(...)`"""
+    for node in ast.walk(tree):
+        if isinstance(node, ast.ClassDef) and node.name == cls:
+            return {n.name: n for n in node.body if isinstance(n, ast.FunctionDef) and not n.decorator_list
+                    and n.name not in PRIMITIVE_METHODS and not n.name.startswith("__")}
+    return {}
+
+
+def module_helpers(tree):
+    """module-level synchronous functions without decorators: candidates for inlining when the translated code
+    calls them by name"""
+    return {n.name: n for n in tree.body if isinstance(n, ast.FunctionDef) and not n.decorator_list}
+
+
+def sync_def(name, doc, fn, params, lean_params, helpers, methods):
+    ex = Executor(SyncDomain("pc"), fn, params, ident=name, helpers=helpers)
+    ex.methods = methods
     body = ex.entry()
     if ex.order:
         raise Unsupported(f"{name}: suspension inside a synchronous function")
     return f"/-- {doc} -/\ndef {name} (s : State) {lean_params}: State × Fin :=\n{body}\n"
 
 
-def coroutine_defs(prefix, doc, klass, fn, gens, entry_params):
+def coroutine_defs(prefix, doc, klass, fn, gens, entry_params, helpers, methods):
     dom = CondDomain(klass, [fn] + list(gens.values()))
-    ex = Executor(dom, fn, {"self": Ent("cond")}, gens=gens, ident=prefix)
+    ex = Executor(dom, fn, {"self": Ent("cond")}, gens=gens, ident=prefix, helpers=helpers)
+    ex.methods = methods
     ent, segs = ex.all_segments()
     out = ""
     for p in ex.order:
@@ -303,16 +325,16 @@ def generate(src: Path):
     text = HEADER
     text += sync_def("notifyImpl", "`PriorityCondition._notify(n)`",
                      find_func(pri, "PriorityCondition", "_notify"),
-                     {"self": Ent("cond"), "n": Dyn("n", "Nat")}, "(n : Nat) ")
+                     {"self": Ent("cond"), "n": Dyn("n", "Nat")}, "(n : Nat) ", module_helpers(pri), class_helpers(pri, "PriorityCondition"))
     text += sync_def("notify", "`PriorityCondition.notify(n)`",
                      find_func(pri, "PriorityCondition", "notify"),
-                     {"self": Ent("cond"), "n": Dyn("n", "Nat")}, "(n : Nat) ")
+                     {"self": Ent("cond"), "n": Dyn("n", "Nat")}, "(n : Nat) ", module_helpers(pri), class_helpers(pri, "PriorityCondition"))
     released = find_func(pri, None, "_released")
     text += coroutine_defs("pw", "`PriorityCondition.wait()` (with `_released` inlined)", "pc",
                            find_func(pri, "PriorityCondition", "wait"), {"_released": released},
-                           "(prio : Option Int) ")
+                           "(prio : Option Int) ", module_helpers(pri), class_helpers(pri, "PriorityCondition"))
     text += coroutine_defs("iw", "`InterruptCondition.wait()`", "ic",
-                           find_func(itr, "InterruptCondition", "wait"), {}, "")
+                           find_func(itr, "InterruptCondition", "wait"), {}, "", module_helpers(itr), class_helpers(itr, "InterruptCondition"))
     text += "end Asynkit.Gen.Cond\n"
     return {"Cond.lean": text}
 
